@@ -34,6 +34,10 @@ Readings (the weaker one where the statement leaves a choice):
     (0 included), else the MaxTime line of the equation text (for a Model: Model.MaxTime, which
     Model.main() writes as that line), else 0.  What the solver ended up using (Parser.MaxTime) is
     only compared as conformance (DRIFT solve_horizon).
+  * "each cell is the corresponding value rendered with the requested format" is judged literally too:
+    the cell text must be <format> % <that stored value> (the sign of a zero, int vs float vs bool under
+    %r / %s), next to the weaker "parses back within the precision".  '%r' and '%s' recover the value
+    exactly, '%+.3f' to 1e-3 absolute.
   * precision of a format: '%.5g' relative 1e-4, '%.12g' relative 1e-11, '%e' relative 1e-6,
     '%f' absolute 1e-6, '%d' exact (only rendered on int-only series).  Values are compared as
     floats (an int beyond 2**53 is compared through float(int), which is what '%g' prints).
@@ -63,8 +67,11 @@ from fractions import Fraction
 
 from harness import core
 
-FORMATS = {'g5': '%.5g', 'g12': '%.12g', 'f': '%f', 'e': '%e', 'd': '%d'}
+FORMATS = {'g5': '%.5g', 'g12': '%.12g', 'f': '%f', 'e': '%e', 'd': '%d', 'r': '%r', 's': '%s', 'pf3': '%+.3f'}
 FLOAT_CLASSES = ['g5', 'g12', 'f', 'e']
+SHOWING_CLASSES = ['r', 'pf3', 's']       # formats that show the type of a value and the sign of a zero
+# equal values that differ in type or in the sign of zero ("twin" series)
+TWINS = [[0.0, -0.0, 0, False, -0.0, 0.0], [1.0, 1, True], [2.0, 2], [-3.0, -3], [100000.0, 100000], [-0.0, 0.0]]
 
 SPECIAL_FLOATS = [0.0, -0.0, 1e-300, -1e-300, 1e300, -1e300, 5e-324, -5e-324, 1.7976931348623157e308,
                   2.2250738585072014e-308, 0.1, -0.1, 1.0 / 3.0, -2.0 / 3.0, 123456.789, 99999.5, 999999.5,
@@ -127,6 +134,15 @@ def cell_ok(cls, text, x):
     try:
         if cls == 'd':
             return type(x) is int and int(text) == x
+        if cls in ('r', 's'):                      # repr round-trips: the value itself comes back
+            if text in ('True', 'False'):
+                return type(x) is bool and x == (text == 'True')
+            if type(x) is bool:
+                return False
+            if type(x) is int:
+                return int(text) == x
+            p = float(text)
+            return p == x or (math.isnan(p) and math.isnan(x))
         p = float(text)
         xf = float(x)
     except (ValueError, OverflowError, TypeError):
@@ -135,10 +151,11 @@ def cell_ok(cls, text, x):
         return math.isnan(p)
     if math.isinf(xf):
         return p == xf
-    rel = {'g5': 1e-4, 'g12': 1e-11, 'e': 1e-6, 'f': None}[cls]
+    rel = {'g5': 1e-4, 'g12': 1e-11, 'e': 1e-6, 'f': None, 'pf3': None}[cls]
+    tol_abs = 1e-3 if cls == 'pf3' else 1e-6
     if not math.isinf(p) and not math.isnan(p):
         err = abs(p - xf)
-        if (err <= 1e-6) if rel is None else (err <= rel * abs(xf)):
+        if (err <= tol_abs) if rel is None else (err <= rel * abs(xf)):
             return True
     try:
         pq = Fraction(text.strip())
@@ -146,8 +163,17 @@ def cell_ok(cls, text, x):
         return False
     xq = Fraction(xf)
     if rel is None:
-        return abs(pq - xq) <= Fraction(1, 10 ** 6)
+        return abs(pq - xq) <= Fraction(tol_abs)
     return abs(pq - xq) <= Fraction(rel) * abs(xq)
+
+
+def cell_exact(cls, text, x):
+    """Is the cell text the stored value rendered with the requested format?  ('%' of Python on that one
+    value is what "rendered with the format" means: '-0' for -0.0, '2.0' for the float, '2' for the int.)"""
+    try:
+        return text == FORMATS[cls] % (x,)
+    except Exception:
+        return False
 
 
 def parse_table(text):
@@ -164,15 +190,22 @@ def parse_table(text):
 def observe_table(cls, text, holder):
     header, rows = parse_table(text)
     cells = []
+    exact = []
     for i, row in enumerate(rows):
         out = []
+        out2 = []
         for j, cell in enumerate(row):
             ok = False
+            ex = False
             if j < len(header) and header[j] in holder and i < len(holder[header[j]]):
                 ok = cell_ok(cls, cell, holder[header[j]][i])
+                ex = cell_exact(cls, cell, holder[header[j]][i])
             out.append(bool(ok))
+            out2.append(bool(ex))
         cells.append(out)
-    return {'header': [codes(n) for n in header], 'rows': len(rows), 'cells': cells}
+        exact.append(out2)
+    return {'header': [codes(n) for n in header], 'rows': len(rows), 'cells': cells,
+            'inexact': sum(1 for r in exact for c in r if not c)}
 
 
 def render_event(cls, src, holder, produce):
@@ -185,7 +218,7 @@ def render_event(cls, src, holder, produce):
         ev.update(ok=True, exc='')
         ev.update(observe_table(cls, text, before))
     except Exception as e:  # recorded, judged by the trace spec
-        ev.update(ok=False, exc=type(e).__name__, header=[], rows=0, cells=[])
+        ev.update(ok=False, exc=type(e).__name__, header=[], rows=0, cells=[], inexact=0)
     return ev
 
 
@@ -235,10 +268,19 @@ def hist_of(beh):
     return hist
 
 
-def make_values(rng, kind, n, big):
+def make_values(rng, kind, n, big, twin=None):
     out = []
     for i in range(n):
-        if kind == 'int':
+        if kind == 'twin':
+            # the next variant of the history's family of equal values; a series starts with a non-int one
+            fam = twin['family']
+            while True:
+                v = fam[twin['next'] % len(fam)]
+                twin['next'] += 1
+                if i > 0 or type(v) is not int:
+                    break
+            out.append(v)
+        elif kind == 'int':
             out.append(rand_int(rng, big=big))
         elif i == 0 or rng.random() < 0.75:
             out.append(rand_float(rng))         # the first value makes the series observably "num"
@@ -254,6 +296,7 @@ def execute(beh, seed):
     rng = random.Random('%d|%s' % (seed, core.canonical(beh)))
     hist = hist_of(beh)
     big = any(o['op'] == 'render' and o['fmt'] == 'd' for o in hist)
+    twin = {'family': rng.choice(TWINS[:2]) if rng.random() < 0.6 else rng.choice(TWINS), 'next': rng.randint(0, 5)}
     events = []
     holder = TimeSeriesHolder('k')
     table_of = holder
@@ -296,7 +339,7 @@ def execute(beh, seed):
                 have = len(holder[name]) if name in holder else None
                 if have is None and o['len'] == 0:
                     holder[name] = []
-                for v in make_values(rng, o['kind'], o['len'] - (have or 0), big):
+                for v in make_values(rng, o['kind'], o['len'] - (have or 0), big, twin):
                     holder.AppendValue(name, v)
                 ev['ok'] = True
             except Exception:
@@ -305,7 +348,7 @@ def execute(beh, seed):
         elif op == 'store':
             ev = {'ev': 'Store', 'name': o['name'], 'len': o['len'], 'kind': o['kind']}
             try:
-                holder[name] = make_values(rng, o['kind'], o['len'], big)
+                holder[name] = make_values(rng, o['kind'], o['len'], big, twin)
                 ev['ok'] = True
             except Exception:
                 ev['ok'] = False
@@ -371,6 +414,8 @@ BLOCKS = {
     'loop': "x = y + 1.\ny = 0.5*x\nx(0) = 3.",
     'lagged': "x = 0.5*LAG_x + 1e-3*k\nLAG_x = x(k-1)\nBig = 1e300*x\ntiny = 1e-300*x\nneg = -x\nx(0) = 2.",
     'plain': "x = 2.\ny = x + k",
+    # zeros of both signs, ints next to equal floats (decoration constants stay ints)
+    'signs': "pay = 0.*k\nout = -pay\nnet = out + pay\ntwo = 2\ntwof = 2.\nzero = 0",
     'steadyable': "x = 0.5*LAG_x + g\nLAG_x = x(k-1)\ny = 2.*x + 1e-300\nx(0) = 1.\nexogenous\ng = [2.]*20",
     'diverges': "x = x + 1.",                        # ConvergenceError: a failed solve
 }
@@ -394,6 +439,7 @@ def model_specs(tier, rng):
              {'model': 'PC', 'block': 4, 'steady': True},
              {'block_text': 'lagged', 'block': 4, 'trace': 4}, {'block_text': 'loop', 'block': 6, 'trace': 1, 'steady': True},
              {'block_text': 'steadyable', 'block': 3, 'steady': True}, {'block_text': 'loop', 'solver': 3, 'trace': 7},
+             {'block_text': 'signs', 'block': 3}, {'block_text': 'signs', 'solver': 0},
              # one solver object, two blocks in a row
              {'block_text': 'plain', 'block': 4, 'first': {'block_text': 'mixed', 'block': 1}},
              {'block_text': 'lagged', 'block': 2, 'first': {'block_text': 'loop', 'block': 5}},
@@ -403,7 +449,7 @@ def model_specs(tier, rng):
                   {'model': 'SIMEX1', 'block': 40}, {'model': 'PC', 'block': 3}, {'model': 'PC', 'block': 60},
                   {'model': 'PC', 'block': 7, 'solver': 0}, {'model': 'SIMEX1', 'block': 0, 'solver': 3},
                   {'model': 'PC', 'block': 2, 'solver': 1}]
-        for name in ('mixed', 'loop', 'lagged', 'plain', 'diverges'):
+        for name in ('mixed', 'loop', 'lagged', 'plain', 'diverges', 'signs'):
             for b in [None] + sorted(rng.sample(range(0, 13), 3)):
                 for sv in (None, 0, rng.randint(1, 6)):
                     spec = {'block_text': name}
@@ -532,7 +578,7 @@ def execute_model(spec, wd, box=None):
     ev.update(snap)
     events.append(ev)
     events.append(render_event('g5', 'call-default', holder, lambda: solver.GenerateCSVtext()))
-    for cls in FLOAT_CLASSES:
+    for cls in FLOAT_CLASSES + SHOWING_CLASSES:
         events.append(render_event(cls, 'call', holder, lambda: solver.GenerateCSVtext(FORMATS[cls])))
     if logged is not None:
         events.append(render_event('g5', 'timeseries-log', holder, lambda: logged))
@@ -674,6 +720,8 @@ def signature(clause, events):
             if ev['ok'] and (len(ev['cells']) != ev['rows'] or
                              any(len(r) != len(ev['header']) or not all(r) for r in ev['cells'])):
                 return 'cell-does-not-parse-back:' + ev['fmt'] + ':' + ev['src']
+            if ev['ok'] and ev.get('inexact', 0) > 0:
+                return 'cell-is-not-the-stored-value-in-the-requested-format:' + ev['fmt'] + ':' + ev['src']
     return clause
 
 
